@@ -327,8 +327,25 @@ def run_case_files(pid, header, case_type, preds, coq_cases, chunk=300, timeout=
     fails = [[] for _ in preds]
     errors = []
     from concurrent.futures import ThreadPoolExecutor
-    with ThreadPoolExecutor(max_workers=JOBS) as ex:
+    # do not start more evaluators than the free memory can hold (a case file takes 0.4-1 GB); a coqc killed by the
+    # kernel (out of memory on a shared machine: rc -9 / 137) says nothing about the property: evaluate it again, alone
+    jobs = JOBS
+    try:
+        avail_kb = [int(l.split()[1]) for l in open('/proc/meminfo') if l.startswith('MemAvailable:')][0]
+        jobs = max(2, min(JOBS, int(avail_kb / 1.2e6)))
+    except Exception:
+        pass
+    with ThreadPoolExecutor(max_workers=jobs) as ex:
         results = list(ex.map(lambda kp: (kp[0], kp[1], coqc(kp[1], timeout=timeout)), files))
+    retried = []
+    for idx, (k, path, (rc, out)) in enumerate(results):
+        if rc in (-9, 137, -15, 143):
+            time.sleep(2)
+            rc2, out2 = coqc(path, timeout=timeout)
+            retried.append(os.path.basename(path))
+            results[idx] = (k, path, (rc2, out2))
+    if retried:
+        log('[%s] %d case file(s) re-evaluated after their evaluator was killed: %s' % (pid, len(retried), ', '.join(retried[:6])))
     for k, path, (rc, out) in results:
         if rc != 0:
             errors.append('%s: coqc failed rc=%s: %s' % (os.path.basename(path), rc, out[-1500:]))
